@@ -67,6 +67,12 @@ SPECIAL = [
     "pragma circom 2.0.0;\nfunction f() { return (0 - 1) ** (0 - 1); }\n",
     "pragma circom 2.0.0;\ntemplate T() { signal input c; signal output o; if (c) { o <-- 1; } else { o <-- 2; } }\n",
     "pragma circom 2.0.0;\ntemplate T() { signal input a; assert((a,a)); }\n",
+    "pragma circom 2.0.0;\ntemplate U() { signal input in; signal output out; out <== in; }\nfunction f(x) { var r = 0; if (x) { r = U()(x); } else { r = 2; } return r; }\n",
+    "pragma circom 2.0.0;\nfunction f(x) { var r = 0; if (x) { r = 2; } else { r = (x, 1); } return r; }\n",
+    "pragma circom 2.0.0;\nfunction f(x) { var r = 0; while (x) { if (x) { r = (x, 1); } else { r = 1; } } return r; }\n",
+    "pragma circom 2.0.0;\nfunction f(x) { var r = 0; { { if (x) { 1 + 2 = 3; } else { r = 1; } } } return r; }\n",
+    "pragma circom 2.0.0;\ntemplate T() { signal input a; signal output o; if (a == 1) { assert((a, a)); } else { o <== a; } }\n",
+    "pragma circom 2.0.0;\ntemplate U() { signal input in; signal output out; out <== in; }\ntemplate T() { signal input a; signal output o; for (var i = 0; i < 2; i++) { if (i == 0) { o <== a; } else { log(1 + U()(a)); } } }\n",
     "pragma circom 2.0.0;\ntemplate T() { signal input a; signal input b; log(\"values\", (a, b + (a, b))); }\n",
     "pragma circom 2.0.0;\ntemplate T() { signal input a; signal input b; log((a, (b, -(a, b)))); }\n",
     "pragma circom 2.0.0;\ntemplate T() { signal input a; signal output o; signal output p; (o, p) <== (a, a + (a, a)); }\n",
